@@ -185,7 +185,8 @@ class DaemonObject(object):
             return next(stream)
         except Exception:
             # in case of error (or StopIteration!) the stream is removed
-            del self.daemon.streaming_responses[streamId]
+            # (it can be gone already: housekeeping or a close_stream from another connection may have removed it meanwhile)
+            self.daemon.streaming_responses.pop(streamId, None)
             raise
 
     def close_stream(self, streamId):
